@@ -12,6 +12,25 @@ TRUSTED = (
 )
 
 CLAIMS = {
+    "C01": dict(
+        technique="static analysis: must-pass-through dataflow + reaching definitions over ast CFGs (validation dominates every slot append), guard-atom extraction compared with a spec table, Optional-guard dominance rule",
+        text=(
+            "Decides the structural necessary conditions of 'every scheduled pulse is within the limits, and a pulse inside the limits is accepted': every path from a public Sequence method to a pulse-slot "
+            "append passes validate_pulse/validate_duration and schedules the validation's result; every slots.append is dominated by the blocking sequence-duration check; the rejection atoms "
+            "(13 limits: strictness, abs(), any-quantifier, None-guard in the same conjunction) equal a spec written from the statement; Optional limits are never used unguarded; a finiteness rejection exists. "
+            "The numeric content (clock rounding arithmetic, averages, DMM products) is not decided."
+        ),
+        design_ref="DESIGN.md §4 C01",
+    ),
+    "C12": dict(
+        technique="static analysis: guard-atom extraction (provenance, tags, canonical relation, folded tolerances) compared with a spec table; Optional-guard dominance rule; culprit/decision provenance agreement",
+        text=(
+            "Decides that the code rejects with exactly the relations the property states (9 geometric rejection atoms incl. the two distance conditions and their OR), that every Optional device/channel "
+            "parameter is used only under a non-None guard on the same access path (so any valid parameter combination can be constructed and printed), that the reported offending atoms are computed from the "
+            "deciding mask, and that register validation dispatches to all checks. Floating-point behaviour exactly at the boundary and the closure of the device-aware constructors are not decided."
+        ),
+        design_ref="DESIGN.md §4 C12",
+    ),
     "C09": dict(
         technique="static analysis: interprocedural write-effect and escaping-raise summaries (ast CFG + call graph with decorator composition), validate-before-mutate ordering rule, read-only effect rule",
         text=(
